@@ -22,6 +22,11 @@ def run(rep, tier):
     ex = radau.r_radau_const(rep, f)
     rep.rule("R-RADAU-START", "Newton's starting values are the previous collocation polynomial continued to the new stage points: z_j = u_prev(1 + c_j*h/h_prev) - y as polynomial identities, h_prev the step accepted last")
     radau.r_radau_start(rep, f, ex if isinstance(ex, dict) and not ex.get("problems") else None)
+    # a predicted or actual Newton failure must shrink the step by a factor in (0, 1): a factor of 0 stalls the solver on
+    # exactly the stiff problems it exists for, a factor >= 1 retries the failing step for ever
+    import C04
+    rep.rule("R-REJECT-SHRINK", "implicit solvers: on every rejecting path (error test, predicted or actual Newton failure, singular matrix) the next step is c*|h| with 0 < c < 1 (interval evaluation over validated field ranges)")
+    C04.r_reject_shrink(rep, f, only=("radau", "bdf"), positive=True)
     rep.explanation = ("Decides exactly the three failure classes the property's rationale names: a broken Newton iteration (right-hand sides / matrices assembled with the wrong constants), "
                        "wrong transformation constants, and stale LU factors. NOT decided: Success on stiff problems, step counts independent of stiffness, preservation of invariants - "
                        "behaviour of the nonlinear iteration on data.")
